@@ -93,10 +93,13 @@ struct SimAlloc
         if (!base) { base = host_alloc(size); cap = size; }
         unsigned char *user = (unsigned char *)base;
 #else
-        if (!base) { base = host_alloc(size + 2 * GUARD); cap = size; }
+        if (!base) { base = size > SIZE_MAX - 2 * GUARD ? nullptr : host_alloc(size + 2 * GUARD); cap = size; }
         unsigned char *user = (unsigned char *)base + GUARD;
-        memset(base, 0xA5, GUARD);
-        memset(user + size, 0xA5, GUARD + (cap - size));
+        if (base)
+        {
+            memset(base, 0xA5, GUARD);
+            memset(user + size, 0xA5, GUARD + (cap - size));
+        }
 #endif
         if (!base)
         { // the real allocator refused (only possible for absurd sizes): report it to the library like any other failure
